@@ -83,8 +83,16 @@ type sharedWrite struct {
 // sharedWrites finds non-construction writes to configuration state and globals in fn.
 func sharedWrites(p *Prog, fn *ssa.Function, cfgField map[*types.Var]*types.Named) []sharedWrite {
 	var out []sharedWrite
-	originFromCfg := func(v ssa.Value) (string, bool) {
+	var originFromCfg func(v ssa.Value) (string, bool)
+	originFromCfg = func(v ssa.Value) (string, bool) {
 		for _, l := range Origins(v) {
+			// library functions whose result shares the backing array of their operand (seed
+			// C15n: slices.Clip protects a later append, not an element store)
+			if l.Kind == "call" && IsCallTo(l.Call, "slices.Clip", "slices.Grow") && len(l.Call.Common().Args) > 0 {
+				if w, ok := originFromCfg(l.Call.Common().Args[0]); ok {
+					return w, true
+				}
+			}
 			if l.Kind == "load" && l.Field != nil {
 				if n, ok := cfgField[l.Field]; ok {
 					return N(n.Obj()) + "." + N(l.Field), true
@@ -127,14 +135,36 @@ func sharedWrites(p *Prog, fn *ssa.Function, cfgField map[*types.Var]*types.Name
 					out = append(out, sharedWrite{fn, in, name + " on " + w})
 				}
 			case "builtin append":
-				if w, ok := originFromCfg(args[0]); ok {
+				// appending to a clipped slice (cap == len) always allocates
+				seenAp := map[ssa.Value]bool{}
+				var clippedOnly func(v ssa.Value) bool
+				clippedOnly = func(v ssa.Value) bool {
+					if seenAp[v] {
+						return true
+					}
+					seenAp[v] = true
+					ls := Origins(v)
+					for _, l := range ls {
+						switch {
+						case l.Kind == "call" && IsCallTo(l.Call, "slices.Clip"):
+						case l.Kind == "call" && CalleeName(l.Call) == "builtin append" && clippedOnly(l.Call.Common().Args[0]):
+						default:
+							return false
+						}
+					}
+					return len(ls) > 0
+				}
+				clipped := clippedOnly(args[0])
+				if w, ok := originFromCfg(args[0]); ok && !clipped {
 					out = append(out, sharedWrite{fn, in, "append to " + w + " (may write the shared backing array)"})
 				}
 			case "builtin copy":
 				if w, ok := originFromCfg(args[0]); ok {
 					out = append(out, sharedWrite{fn, in, "copy into " + w})
 				}
-			case "sort.Strings", "sort.Slice", "slices.Sort", "slices.SortFunc", "slices.Reverse", "sort.Sort", "sort.Stable":
+			case "sort.Strings", "sort.Slice", "slices.Sort", "slices.SortFunc", "slices.Reverse", "sort.Sort", "sort.Stable",
+				"slices.SortStableFunc", "slices.Compact", "slices.CompactFunc", "slices.Delete", "slices.DeleteFunc", "slices.Insert", "slices.Replace",
+				"maps.Copy", "maps.DeleteFunc", "maps.Insert":
 				if len(args) > 0 {
 					if w, ok := originFromCfg(args[0]); ok {
 						out = append(out, sharedWrite{fn, in, name + " in place on " + w})
